@@ -39,6 +39,14 @@ def add_samples_jobs(tier, props, blobs=(None,), vectorized=(False,)):
                                 blobs=bl, vectorized=vec, unroll=unroll,
                                 props=props), pkg_key='sampler',
                                 max_paths=30000 if thorough else 3000))
+    # sampling phase with leftover (unused) transfer candidates from the
+    # exploration: they must stay where they are
+    for m, prov in [([1, 1], [0]), ([1, 1, 1], [0, 1])]:
+        for shell in (len(m) - 1, 0):
+            jobs.append(Job(STEP + 'add_samples', dict(
+                m=m, prov=prov, shell=shell, n_batch=1, explored=True,
+                end_exp=[1] * len(m), unroll=unroll, props=props),
+                pkg_key='sampler', max_paths=30000 if thorough else 3000))
     # exploration phase: newest shell, with transfer candidates
     expl = [([1, 0], []), ([1, 1], []), ([1, 1, 0], [0]), ([1, 1, 0], [1]),
             ([1, 1, 0], [0, 1]), ([2, 1, 1], [0, 0]), ([1, 1, 1], [-1, 0])]
